@@ -28,10 +28,12 @@ def op_pool():
         A("h", "nor", fanin=["g", "ghost"], fanout=["g"]),  # rejected after the fan-out side was wired
         A("k", "1"), A("g", "xor", fanin=["a"], uid=True),
         ("connect", ("a", "g"), {}), ("connect", ("g", "h"), {}), ("connect", ("h", "g"), {}), ("connect", ("k", "a"), {}), ("connect", (["a", "b"], "h"), {}), ("connect", ("g", ["h", "a"]), {}),
+        ("connect", ("g", "g"), {}), A("w", "buf", fanin="w"), ("connect", ("a", "w"), {}), ("connect", ("b", "g"), {}),  # self-loops, then a second driver
         ("disconnect", ("a", "g"), {}), ("remove", ("g",), {}), ("set_output", ("g",), {}), ("set_output", (["g", "ghost"],), {}),
         ("@add_blackbox", (*ff, "u0", {"d": "g", "q": "h"}), {}), ("@add_blackbox", (*ff, "u0", {"d": "g", "q": "ghost"}), {}), ("@add_blackbox", (*ff, "u0", None), {}),
         ("@fill", ("u0", "feedthrough"), {}),
         ("@add_sub", ("ha", "s0", {"x": "a", "y": "g", "c": "h"}), {}), ("@add_sub", ("ha", "s0", {"x": "ghost"}), {}),
+        ("@add_sub", ("withbb", "s1", {"x": "a", "o": "h"}), {}), ("@add_sub", ("withbb", "s1", {"x": "ghost"}), {}),
         ("remove", ("u0.d",), {}), ("connect", ("u0.q", "g"), {}), ("connect", ("a", "u0.q"), {}), ("connect", ("u0.d", "h"), {}),
         ("remove_unloaded", (), {}),
     ]
